@@ -16,6 +16,9 @@ class C05(ProgProp):
 
 
     def gen(self, rng, tier, k):
+        if k % 16 == 1:
+            from .. import gen as g
+            return self.motif_case(rng, tier, g.motif_out_of_band_flush(rng))
         if k % 16 == 9:
             from .. import gen as g
             spec = g.motif_cancel_scheduled(rng)
